@@ -309,10 +309,66 @@ Theorem header_forwarded decomp comp v p d hs es p' out c :
   op_step decomp comp v p (OpHeader d hs es) = Some (p', out, c) ->
   out = [OErr ErrEncoding] \/ out = [PHeader d hs es; SHeader d hs es] \/ out = [SHeader d hs es].
 Proof.
-  cbn [op_step].
-  destruct (enabled (if enabled p then p else if is_grpc hs then set_enabled p else p)).
-  - destruct (select_enc _ hs); intros H; injection H as _ <- _; auto.
+  unfold op_step. cbn [op_dir adapter_step]. destruct (has_proc d p).
+  - destruct (enabled (if enabled p then p else if is_grpc hs then set_enabled p else p)).
+    + destruct (select_enc _ hs); intros H; injection H as _ <- _; auto.
+    + intros H; injection H as _ <- _; auto.
   - intros H; injection H as _ <- _; auto.
+Qed.
+
+(* ================= factory configuration ================= *)
+
+(* A direction for which the ProcessorFactory returned no processor: every
+   frame goes to its sink as it is, nothing is shown to anybody, and the
+   stream's state (gRPC flag included) does not change. *)
+Theorem no_processor_untouched decomp comp v p o :
+  has_proc (op_dir o) p = false ->
+  op_step decomp comp v p o = Some (p, untouched o, true).
+Proof. intros H. unfold op_step. rewrite H. destruct o; reflexivity. Qed.
+
+Lemma has_proc_set_enc d' d e p : has_proc d' (set_enc d e p) = has_proc d' p.
+Proof. destruct d, d'; reflexivity. Qed.
+Lemma has_proc_set_ad d' d s p : has_proc d' (set_ad d s p) = has_proc d' p.
+Proof. destruct d, d'; reflexivity. Qed.
+Lemma has_proc_set_enabled d' p : has_proc d' (set_enabled p) = has_proc d' p.
+Proof. destruct d'; reflexivity. Qed.
+
+(* gRPC detection, one HEADERS at a time: the flag is raised exactly by a
+   content-type: application/grpc seen by an adapter that exists, never
+   lowered; the configuration never changes. *)
+Theorem detection_step decomp comp v p d hs es p' out c :
+  op_step decomp comp v p (OpHeader d hs es) = Some (p', out, c) ->
+  enabled p' = (enabled p || (has_proc d p && std_is_grpc hs)) /\
+  forall d', has_proc d' p' = has_proc d' p.
+Proof.
+  unfold op_step. cbn [op_dir adapter_step]. change (std_is_grpc hs) with (is_grpc hs).
+  destruct (has_proc d p) eqn:Hd;
+    [|intros H; injection H as <- _ _; rewrite andb_false_l, orb_false_r; auto].
+  set (q := if enabled p then p else if is_grpc hs then set_enabled p else p).
+  assert (Hq : enabled q = enabled p || is_grpc hs).
+  { subst q. destruct (enabled p) eqn:E; [now rewrite E|].
+    destruct (is_grpc hs); [reflexivity|now rewrite E]. }
+  assert (Hh : forall d', has_proc d' q = has_proc d' p).
+  { intros d'. subst q. destruct (enabled p); [reflexivity|].
+    destruct (is_grpc hs); [apply has_proc_set_enabled|reflexivity]. }
+  rewrite andb_true_l, <- Hq.
+  destruct (enabled q) eqn:Eq.
+  - destruct (select_enc (get_enc d q) hs); intros H; injection H as <- _ _.
+    + split; [destruct d; exact Eq|]. intros d'. now rewrite has_proc_set_enc.
+    + split; [exact Eq|exact Hh].
+  - intros H; injection H as <- _ _. split; [exact Eq|exact Hh].
+Qed.
+
+Theorem data_keeps_detection decomp comp v p d b es p' out c :
+  op_step decomp comp v p (OpData d b es) = Some (p', out, c) ->
+  enabled p' = enabled p /\ forall d', has_proc d' p' = has_proc d' p.
+Proof.
+  unfold op_step. cbn [op_dir adapter_step]. destruct (has_proc d p).
+  - destruct (enabled p) eqn:Hen.
+    + destruct (adapter_data decomp v (get_enc d p) (get_ad d p) b es); try discriminate;
+        intros H; injection H as <- _ _; (split; [now destruct d|intros d'; apply has_proc_set_ad]).
+    + intros H; injection H as <- _ _. auto.
+  - intros H; injection H as <- _ _. auto.
 Qed.
 
 (* ================= from DATA frame lists to op scripts ================= *)
@@ -330,28 +386,30 @@ Lemma through_app d e a b : through comp v d e (a ++ b) = through comp v d e a +
 Proof. unfold through. apply flat_map_app. Qed.
 
 Lemma get_set_ad d s p : get_ad d (set_ad d s p) = s /\ get_enc d (set_ad d s p) = get_enc d p
-                         /\ enabled (set_ad d s p) = enabled p.
+                         /\ enabled (set_ad d s p) = enabled p /\ has_proc d (set_ad d s p) = has_proc d p.
 Proof. destruct d; cbn; auto. Qed.
 
 (* On a gRPC stream, feeding DATA ops of one direction is [run_frames] on
    that direction's adapter, each event going through the processor to the
    emitter and the sink. *)
 Lemma run_ops_data d : forall fs p s' evs,
-  enabled p = true ->
+  has_proc d p = true -> enabled p = true ->
   run_frames decomp v (get_enc d p) (get_ad d p) fs = Done s' evs ->
   exists outs,
     run_ops decomp comp v p (data_ops d fs) = Some outs /\
     concat outs = through comp v d (get_enc d p) evs /\
     length outs = length fs.
 Proof.
-  induction fs as [|[b es] fs IH]; intros p s' evs Hen Hrun.
+  induction fs as [|[b es] fs IH]; intros p s' evs Hpr Hen Hrun.
   - cbn in Hrun. injection Hrun as _ <-. exists []. auto.
-  - cbn [run_frames] in Hrun. cbn [data_ops map fst snd run_ops op_step]. rewrite Hen.
+  - cbn [run_frames] in Hrun. cbn [data_ops map fst snd run_ops]. unfold op_step.
+    cbn [op_dir adapter_step]. rewrite Hpr, Hen.
     destruct (adapter_data decomp v (get_enc d p) (get_ad d p) b es) as [s1 evs1| |] eqn:Had; try discriminate.
     destruct (run_frames decomp v (get_enc d p) s1 fs) as [s2 evs2| |] eqn:Hrest; try discriminate.
     cbn [app_ev] in Hrun. injection Hrun as _ <-.
-    destruct (get_set_ad d s1 p) as [Ha [He Hn]].
+    destruct (get_set_ad d s1 p) as [Ha [He [Hn Hh]]].
     destruct (IH (set_ad d s1 p) s2 evs2) as [outs [Ho [Hc Hl]]].
+    + now rewrite Hh.
     + now rewrite Hn.
     + now rewrite Ha, He.
     + fold (data_ops d fs). rewrite Ho. eexists. split; [reflexivity|].
@@ -367,7 +425,7 @@ End Ops.
    oracle. *)
 Theorem ops_level decomp comp p d ms ds dl esl :
   (forall e' b, decomp e' (comp e' b) = Some b) ->
-  enabled p = true -> get_ad d p = st0 ->
+  has_proc d p = true -> enabled p = true -> get_ad d p = st0 ->
   wf decomp (get_enc d p) ms -> lens_fit decomp comp (get_enc d p) ms ->
   concat ds ++ dl = wire ms ->
   exists outs evs,
@@ -375,11 +433,11 @@ Theorem ops_level decomp comp p d ms ds dl esl :
     concat outs = through comp repaired d (get_enc d p) evs /\
     c11_ok decomp (get_enc d p) ms esl (calls_of evs) (datas_of comp repaired (get_enc d p) evs) = true.
 Proof.
-  intros Hlaw Hen Had Hwf Hfit Hp.
+  intros Hlaw Hpr Hen Had Hwf Hfit Hp.
   destruct (model_satisfies_oracle decomp comp (get_enc d p) ms ds dl esl Hlaw Hwf Hfit Hp)
     as [s' [evs [Hrun Hok]]].
   rewrite <- Had in Hrun.
-  destruct (run_ops_data decomp comp repaired d _ p s' evs Hen Hrun) as [outs [Ho [Hc _]]].
+  destruct (run_ops_data decomp comp repaired d _ p s' evs Hpr Hen Hrun) as [outs [Ho [Hc _]]].
   exists outs, evs. auto.
 Qed.
 
